@@ -71,6 +71,13 @@ func collectClosure(funcLit *ast.FuncLit, pass *analysishelper.EnhancedPass, clo
 				return false
 			}
 
+			// Skip the symbolic variable of a type switch guard (`switch x := y.(type)`): it has no
+			// object of its own, each clause declares an implicit variable that the uses of `x` in
+			// that clause refer to.
+			if pass.TypesInfo.ObjectOf(node) == nil {
+				return false
+			}
+
 			// Get the underlying object for the identifier
 			obj, ok := pass.TypesInfo.ObjectOf(node).(*types.Var)
 			if !ok {
@@ -82,8 +89,9 @@ func collectClosure(funcLit *ast.FuncLit, pass *analysishelper.EnhancedPass, clo
 				return false
 			}
 
-			// Skip if node is in the scope
-			if scope.Lookup(obj.Name()) == obj {
+			// Skip if node is in the scope (of the function literal itself or of a block nested in it,
+			// e.g., the implicit variable a type switch clause declares for its symbolic variable)
+			if scope.Lookup(obj.Name()) == obj || scope.Contains(obj.Pos()) {
 				return false
 			}
 
